@@ -196,6 +196,13 @@ MUTATORS = ("diagonalize_inertia", "merge_faces", "sort_faces", "to_hoomd")
 QUERY_READS = {
     "get_face_area()": lambda o: o.get_face_area(),
     "is_inside(centroid)": lambda o: o.is_inside(np.asarray(o.centroid if not hasattr(o, "polyhedron") else o.polyhedron.centroid, float)),
+    # queries with arguments spread over all regions of the shape (core, face slabs, edge wedges,
+    # vertex caps, outside): a memo that is only filled on some code path still becomes an operation
+    "is_inside(probes)": lambda o: o.is_inside(probes_for(o)["points"]),
+    "compute_form_factor_amplitude(q)": lambda o: o.compute_form_factor_amplitude(probes_for(o)["q"]),
+    "distance_to_surface(angles)": lambda o: o.distance_to_surface(probes_for(o)["angles"]),
+    "get_dihedral(0,nb)": lambda o: o.get_dihedral(0, int(np.asarray(o.neighbors[0]).reshape(-1)[0])),
+    "to_json": lambda o: o.to_json(["vertices"]),
     "repr": lambda o: repr(o),
     "gsd_shape_spec": lambda o: o.gsd_shape_spec,
 }
@@ -612,8 +619,18 @@ def probes_for(obj):
     c = v.mean(0)
     L = float(np.linalg.norm(hi - lo))
     pts = [c]
-    for t in (0.25, 0.6, 1.4, 2.5):
-        for w in v[: min(len(v), 6)]:
+    targets = [w for w in v[: min(len(v), 6)]]
+    core = _poly_of(obj)
+    try:
+        if hasattr(core, "faces") and not hasattr(core, "normal"):
+            for f in list(core.faces)[:6]:
+                targets.append(v[list(map(int, f))].mean(0))  # through face centroids: face slabs
+        for i in range(min(len(v), 4)):
+            targets.append(0.5 * (v[i] + v[(i + 1) % len(v)]))  # through edge midpoints (edges for polygons)
+    except Exception:
+        pass
+    for t in (0.25, 0.6, 1.15, 1.4, 2.5):
+        for w in targets:
             pts.append(c + t * (w - c))
     pts.append(c + 10 * L)
     d = {"points": np.array(pts), "q": None, "angles": None}
